@@ -62,6 +62,9 @@ pub fn gen_keys(rng: &mut Rng, n: usize, subdirs: bool) -> Vec<String> {
         // sometimes the same file name exists in two directories (different notes, different titles)
         let name = if subdirs && i > 0 && rng.chance(1, 6) {
             format!("n{}", rng.range(1, i))
+        } else if rng.chance(1, 12) {
+            // a note name with a space: links to it need their destination in angle brackets
+            format!("n {}", i + 1)
         } else {
             format!("n{}", i + 1)
         };
